@@ -34,6 +34,7 @@ func init() {
 			{ID: "C03.11", Desc: "a reference read from the index of a URI names an entry of that URI", Run: func(c *Ctx) { ruleIndexRefsBelongToKey(c, "C03.11") }, MinSites: 1},
 			{ID: "C03.12", Desc: "a port is left out of the key only when it is the default of the URI's own scheme (http://h:443/ is not http://h/)", Run: func(c *Ctx) { rulePortDefaultByScheme(c, "C03.12") }, MinSites: 1},
 			{ID: "C03.13", Desc: "the port enters the key as it is written (:0 is not \"no port\")", Run: func(c *Ctx) { rulePortAsWritten(c, "C03.13") }, MinSites: 1},
+			{ID: "C03.14", Desc: "the host enters the key as it is written (a trailing dot is part of it)", Run: func(c *Ctx) { ruleHostAsWritten(c, "C03.14") }, MinSites: 1},
 		},
 	})
 }
